@@ -18,6 +18,8 @@ package core
 
 import (
 	"fmt"
+	"go/ast"
+	"go/token"
 	"go/types"
 	"sort"
 	"strings"
@@ -481,6 +483,16 @@ func DumpPinned(p *Program) string {
 	writeMap("PinnedParams", params)
 	writeMap("PinnedFreeVars", frees)
 	writeMap("PinnedLocals", locals)
+	decls := map[string][]string{}
+	for fn := range p.AllFuncs {
+		if !InModule(fn) || fn.Synthetic != "" {
+			continue
+		}
+		for _, nt := range declPairs(p.declVars(fn)) {
+			decls[QualName(fn)] = append(decls[QualName(fn)], nt.name+" "+nt.typ)
+		}
+	}
+	writeMap("PinnedDecls", decls)
 	return sb.String()
 }
 
@@ -690,10 +702,25 @@ func pkgLevel(pk *types.Package) (tns []*types.TypeName, fns []*types.Func, vars
 		}
 	}
 	// declaration order (a group renamed together keeps it)
-	sort.SliceStable(tns, func(i, j int) bool { return tns[i].Pos() < tns[j].Pos() })
-	sort.SliceStable(fns, func(i, j int) bool { return fns[i].Pos() < fns[j].Pos() })
-	sort.SliceStable(vars, func(i, j int) bool { return vars[i].Pos() < vars[j].Pos() })
+	sort.SliceStable(tns, func(i, j int) bool { return posLess(tns[i].Pos(), tns[j].Pos()) })
+	sort.SliceStable(fns, func(i, j int) bool { return posLess(fns[i].Pos(), fns[j].Pos()) })
+	sort.SliceStable(vars, func(i, j int) bool { return posLess(vars[i].Pos(), vars[j].Pos()) })
 	return
+}
+
+// pinFset is the file set of the loaded program: positions of different files compare by file name (the raw token.Pos
+// order of two files depends on which one the loader parsed first).
+var pinFset *token.FileSet
+
+func posLess(a, b token.Pos) bool {
+	if pinFset == nil {
+		return a < b
+	}
+	pa, pb := pinFset.Position(a), pinFset.Position(b)
+	if pa.Filename != pb.Filename {
+		return pa.Filename < pb.Filename
+	}
+	return pa.Offset < pb.Offset
 }
 
 // pinPackages aligns types, then functions/methods, then variables of every module package.
@@ -825,7 +852,15 @@ func (p *Program) pinPackages(pkgs []*types.Package) {
 						continue
 					}
 					match := false
-					if pre != "" && sig.Recv() == nil && sig.Params().Len() >= 1 {
+					if pre != "" && sig.Recv() != nil {
+						// same method, receiver kind changed (value <-> pointer)
+						cp := methodDisplay(f)
+						toggled := strings.Replace(cp, "(*", "(", 1)
+						if !strings.HasPrefix(cp, "(*") {
+							toggled = "(*" + cp[1:]
+						}
+						match = toggled == pre
+					} else if pre != "" && sig.Recv() == nil && sig.Params().Len() >= 1 {
 						// pinned method, now a function: first parameter is the old receiver
 						rt := "(" + strings.TrimPrefix(canonType(sig.Params().At(0).Type()), short+".") + ")."
 						rt = strings.Replace(rt, "(*"+short+".", "(*", 1)
@@ -963,3 +998,91 @@ func ParamIndex(fn *ssa.Function, name string) int {
 	}
 	return -1
 }
+
+// ---------------------------------------------------------------------------------------------------------------------
+// Variables declared in a function body (registers as well as cells), for rules that read the syntax tree: the same
+// alignment over the distinct (name, type) pairs the body declares, in source order.
+
+// declVars lists the variables fn's body declares (nested function literals excluded), in source order.
+func (p *Program) declVars(fn *ssa.Function) []*types.Var {
+	body, info := p.Body(fn)
+	if body == nil || info == nil {
+		return nil
+	}
+	var out []*types.Var
+	ast.Inspect(body, func(n ast.Node) bool {
+		switch x := n.(type) {
+		case *ast.FuncLit:
+			return false
+		case *ast.Ident:
+			if v, ok := info.Defs[x].(*types.Var); ok && v != nil && !v.IsField() {
+				out = append(out, v)
+			}
+		}
+		return true
+	})
+	sort.SliceStable(out, func(i, j int) bool { return out[i].Pos() < out[j].Pos() })
+	return out
+}
+
+func declPairs(vs []*types.Var) []namedType {
+	var out []namedType
+	seen := map[namedType]bool{}
+	for _, v := range vs {
+		nt := namedType{v.Name(), canonType(v.Type())}
+		if !seen[nt] {
+			seen[nt] = true
+			out = append(out, nt)
+		}
+	}
+	return out
+}
+
+// LocalVarName is the pinned name of a variable declared in fn's body (its current name when nothing moved).
+func (p *Program) LocalVarName(fn *ssa.Function, v *types.Var) string {
+	if fn == nil || v == nil {
+		return ""
+	}
+	declMu.Lock()
+	m, ok := declNames[fn]
+	declMu.Unlock()
+	if !ok {
+		m = map[*types.Var]string{}
+		vs := p.declVars(fn)
+		cur := declPairs(vs)
+		names := make([]string, len(cur))
+		for i := range cur {
+			names[i] = cur[i].name
+		}
+		key := QualName(fn)
+		if pin, has := PinnedDecls[key]; has && !pinDisabled {
+			var ren []string
+			names, ren = alignNames(cur, splitPinned(pin))
+			pinMu.Lock()
+			for _, r := range ren {
+				pinStats["decl-renamed"]++
+				pinRenames = append(pinRenames, "declared "+key+": "+r)
+			}
+			pinMu.Unlock()
+		}
+		byPair := map[namedType]string{}
+		for i, c := range cur {
+			byPair[c] = names[i]
+		}
+		for _, x := range vs {
+			m[x] = byPair[namedType{x.Name(), canonType(x.Type())}]
+		}
+		declMu.Lock()
+		declNames[fn] = m
+		declMu.Unlock()
+	}
+	if n, ok := m[v]; ok && n != "" {
+		return n
+	}
+	return v.Name()
+}
+
+var (
+	declMu    sync.Mutex
+	declNames = map[*ssa.Function]map[*types.Var]string{}
+)
